@@ -11,7 +11,7 @@ def handleC03 (toks : List String) : Option String :=
   | op :: _ =>
     if op.startsWith "sw_" then some "safe"
     -- C19 differential lines: a thin wrapper returns exactly what the method it wraps returns
-    else if op.startsWith "w19_" then some "ok same"
+    else if op.startsWith "w19_" || op.startsWith "w20_" then some "ok same"
     else none
   | _ => none
 
